@@ -22,7 +22,7 @@ import (
 func main() {
 	Main(map[string]Runner{
 		"handler": runHandlerParent, "handler-child": runHandlerChild,
-		"frames": runFrames, "packets": runPackets,
+		"frames": runFrames, "packets": runPackets, "session": runSession,
 	})
 }
 
